@@ -108,6 +108,13 @@ Fixpoint subs_get (big : bool) (subs : list sreg) (index width sw : Z) (rev_sub 
       bind (py_sub_acc acc sv pos) (fun acc' => subs_get big t (index + 1) width sw rev_sub raw acc')))
   end.
 
+(* the sub-registers above the selected (alternative) width are written with 0 *)
+Fixpoint subs_zero (subs : list sreg) (raw : bool) : res (list sreg) :=
+  match subs with
+  | [] => Ok []
+  | s :: t => bind (sreg_set s 0 raw) (fun s' => bind (subs_zero t raw) (fun t' => Ok (s' :: t')))
+  end.
+
 Definition reg_set (r : reg) (value : Z) (raw : bool) : res reg :=
   let b := r_base r in
   bind (set_common (s_width b) (s_reverse b) (s_alt b) value raw) (fun p =>
@@ -118,7 +125,8 @@ Definition reg_set (r : reg) (value : Z) (raw : bool) : res reg :=
       let sw := s_width s0 in
       let n := Z.to_nat (aw / sw) in
       bind (subs_set (firstn n (r_subs r)) 1 aw sw (r_rev_sub r) value raw) (fun l =>
-      Ok (set_subs_of r (l ++ skipn n (r_subs r))))
+      bind (subs_zero (skipn n (r_subs r)) raw) (fun z =>
+      Ok (set_subs_of r (l ++ z))))
   end).
 
 Definition reg_raw_value (big : bool) (r : reg) (raw : bool) : res Z :=
